@@ -1,6 +1,7 @@
 package main
 
 import (
+	"fmt"
 	"go/ast"
 	"go/token"
 	"go/types"
@@ -404,7 +405,7 @@ func init() {
 							continue
 						}
 						ctors[callee] = true
-						construct := ord.next("hands the list to " + callee.Name())
+						construct := ord.next("hands the list to " + shortName(callee))
 						if loopBlock != nil && fc.BlockDominates(loopBlock, b) && b != loopBlock {
 							obs = append(obs, mkOb(c, "SCHEMA.constraints-at-build", u, construct, ce, Proved, "dominated by the validating loop", true))
 						} else {
@@ -538,6 +539,115 @@ func init() {
 				})
 			}
 			validationTime := map[*types.Func]bool{}
+			// validation-time callbacks: a function-typed parameter that its function only ever
+			// CALLS inside a validator closure (or hands to another such parameter) —
+			// `numericConstraint(bound, holds, failure)` runs holds and failure when a value is
+			// validated.  The literals, and the literals returned by the functions, passed for
+			// such a parameter are validator closures too; a named function passed for one is
+			// validation-time code.
+			vtParams := map[types.Object]bool{}
+			for round := 0; round < 4; round++ {
+				grew := false
+				for _, u := range c.Funcs(inSchema) {
+					info := u.Pkg.TypesInfo
+					for _, po := range paramObjs(u) {
+						if vtParams[po] {
+							continue
+						}
+						if _, isFn := po.Type().Underlying().(*types.Signature); !isFn {
+							continue
+						}
+						nuse, good := 0, 0
+						var stack []ast.Node
+						ast.Inspect(u.Decl.Body, func(n ast.Node) bool {
+							if n == nil {
+								stack = stack[:len(stack)-1]
+								return true
+							}
+							stack = append(stack, n)
+							id, ok := n.(*ast.Ident)
+							if !ok || info.Uses[id] != po {
+								return true
+							}
+							nuse++
+							inVal := false
+							for _, a := range stack {
+								if fl, ok := a.(*ast.FuncLit); ok && allClosures[fl] {
+									inVal = true
+								}
+							}
+							if len(stack) >= 2 {
+								if ce, ok := stack[len(stack)-2].(*ast.CallExpr); ok {
+									if ast.Unparen(ce.Fun) == ast.Expr(id) && inVal {
+										good++
+										return true
+									}
+									if h := originOf(Callee(info, ce)); h != nil {
+										if hd := c.declOf[h]; hd != nil {
+											hps := paramObjs(FuncUnit{h, hd, c.pkgOf[hd]})
+											for j, a := range ce.Args {
+												if ast.Unparen(a) == ast.Expr(id) && j < len(hps) && vtParams[hps[j]] {
+													good++
+													return true
+												}
+											}
+										}
+									}
+								}
+							}
+							return true
+						})
+						if nuse > 0 && nuse == good {
+							vtParams[po] = true
+							grew = true
+						}
+					}
+				}
+				for _, u := range c.Funcs(inSchema) {
+					info := u.Pkg.TypesInfo
+					for _, ce := range callsIn(u.Decl.Body, true) {
+						h := originOf(Callee(info, ce))
+						hd := c.declOf[h]
+						if h == nil || hd == nil {
+							continue
+						}
+						hps := paramObjs(FuncUnit{h, hd, c.pkgOf[hd]})
+						for j, a := range ce.Args {
+							if j >= len(hps) || !vtParams[hps[j]] {
+								continue
+							}
+							switch x := ast.Unparen(a).(type) {
+							case *ast.FuncLit:
+								if !allClosures[x] {
+									allClosures[x] = true
+									grew = true
+								}
+							case *ast.CallExpr:
+								if g := originOf(Callee(info, x)); g != nil {
+									if gd := c.declOf[g]; gd != nil && gd.Body != nil {
+										for _, rs := range returnsOf(gd.Body) {
+											for _, r := range rs.Results {
+												if fl, ok := ast.Unparen(r).(*ast.FuncLit); ok && !allClosures[fl] {
+													allClosures[fl] = true
+													grew = true
+												}
+											}
+										}
+									}
+								}
+							case *ast.Ident:
+								if g, ok := info.Uses[x].(*types.Func); ok && !validationTime[originOf(g)] {
+									validationTime[originOf(g)] = true
+									grew = true
+								}
+							}
+						}
+					}
+				}
+				if !grew {
+					break
+				}
+			}
 			for changed := true; changed; {
 				changed = false
 				for _, u := range c.Funcs(inSchema) {
@@ -594,7 +704,7 @@ func init() {
 				walk = func(n ast.Node, inClosure bool) {
 					ast.Inspect(n, func(m ast.Node) bool {
 						if fl, ok := m.(*ast.FuncLit); ok && m != n {
-							walk(fl.Body, inClosure || closures[fl])
+							walk(fl.Body, inClosure || closures[fl] || allClosures[fl])
 							return false
 						}
 						ce, ok := m.(*ast.CallExpr)
@@ -878,7 +988,7 @@ func init() {
 						if !ok || len(ret.Results) != 1 {
 							return true
 						}
-						if ce, ok := ast.Unparen(ret.Results[0]).(*ast.CallExpr); !ok || !strings.Contains(types.ExprString(ce.Fun), "ErrorCondition") {
+						if ce, ok := ast.Unparen(ret.Results[0]).(*ast.CallExpr); !ok || (!strings.Contains(types.ExprString(ce.Fun), "ErrorCondition") && !isFuncParamCall(info, u, ce)) {
 							return true
 						}
 						cond := ast.Unparen(is.Cond)
@@ -886,6 +996,29 @@ func init() {
 						if ue, ok := cond.(*ast.UnaryExpr); ok && ue.Op == token.NOT {
 							negated = true
 							cond = ast.Unparen(ue.X)
+						}
+						// the relation handed in as a function: `if !holds(value, bound) { return failure(…) }`
+						if rc, ok := cond.(*ast.CallExpr); ok && isFuncParamCall(info, u, rc) && len(rc.Args) == 2 && isF64(info, rc.Args[0]) && isF64(info, rc.Args[1]) {
+							po := identObj(info, rc.Fun)
+							vals, resolved := c.funcParamValues(u, po, 0)
+							if !resolved || len(vals) == 0 {
+								obs = append(obs, mkOb(c, rid, u, ord.next("bound "+types.ExprString(is.Cond)), is, Undecided, "the relation is a function value that cannot be traced to the functions passed for it", true))
+								return true
+							}
+							for _, fv := range vals {
+								construct := ord.next("bound " + types.ExprString(is.Cond) + " with " + fv.name)
+								switch {
+								case !fv.ordering:
+									obs = append(obs, mkOb(c, rid, u, construct, is, Undecided, "the function passed as the relation is not a single ordering comparison of its two operands", true))
+								case negated:
+									obs = append(obs, mkOb(c, rid, u, construct, is, Proved, "fails unless the relation "+fv.name+" holds (NaN fails)", true))
+								case hasNaNTest:
+									obs = append(obs, mkOb(c, rid, u, construct, is, Proved, "NaN is tested for explicitly in this validator", true))
+								default:
+									obs = append(obs, mkOb(c, rid, u, construct, is, Violated, "the validator fails when the relation "+fv.name+" holds and passes otherwise: NaN makes every comparison false, so it passes this bound and its opposite", true))
+								}
+							}
+							return true
 						}
 						be, ok := cond.(*ast.BinaryExpr)
 						if !ok {
@@ -990,4 +1123,118 @@ func init() {
 			}
 			return []Obligation{mkOb(c, rid, u, "typedef validator", fd, Violated, "the validator built from a typedef never looks at the input's tag: the typedef is used for the name in messages only, so (deftype ta (s) s) (deftype tb (s) s) (s:validate (s:make-validator ta s:string) (new tb \"x\")) accepts a value of a different type", true)}
 		}})
+}
+
+// isFuncParamCall: ce calls a function-typed parameter of u (a callback).
+func isFuncParamCall(info *types.Info, u FuncUnit, ce *ast.CallExpr) bool {
+	o := identObj(info, ce.Fun)
+	if o == nil {
+		return false
+	}
+	if _, isFn := o.Type().Underlying().(*types.Signature); !isFn {
+		return false
+	}
+	for _, p := range paramObjs(u) {
+		if p == o {
+			return true
+		}
+	}
+	return false
+}
+
+type funcValue struct {
+	name     string
+	ordering bool // the body is `return a OP b` over its two parameters, OP an ordering comparison
+}
+
+// funcParamValues: every function the module passes for parameter po of u (through
+// forwarding parameters of the callers, to depth 2); false when some call site passes
+// anything but a declared function, a literal or its own such parameter, or when u's value
+// is taken.
+func (c *Ctx) funcParamValues(u FuncUnit, po types.Object, depth int) ([]funcValue, bool) {
+	idx := -1
+	for i, p := range paramObjs(u) {
+		if p == po {
+			idx = i
+		}
+	}
+	if idx < 0 || depth > 2 {
+		return nil, false
+	}
+	sites, refs := c.CallsTo(nil, u.Obj)
+	if len(refs) > 0 || len(sites) == 0 {
+		return nil, false
+	}
+	isOrdering := func(info *types.Info, ft *ast.FuncType, body *ast.BlockStmt) bool {
+		if body == nil || len(body.List) != 1 {
+			return false
+		}
+		rs, ok := body.List[0].(*ast.ReturnStmt)
+		if !ok || len(rs.Results) != 1 {
+			return false
+		}
+		be, ok := ast.Unparen(rs.Results[0]).(*ast.BinaryExpr)
+		if !ok {
+			return false
+		}
+		switch be.Op {
+		case token.LSS, token.LEQ, token.GTR, token.GEQ:
+		default:
+			return false
+		}
+		var ps []types.Object
+		if ft.Params != nil {
+			for _, f := range ft.Params.List {
+				for _, nm := range f.Names {
+					ps = append(ps, info.Defs[nm])
+				}
+			}
+		}
+		if len(ps) != 2 {
+			return false
+		}
+		x, y := identObj(info, be.X), identObj(info, be.Y)
+		return (x == ps[0] && y == ps[1]) || (x == ps[1] && y == ps[0])
+	}
+	var out []funcValue
+	seen := map[string]bool{}
+	for _, s := range sites {
+		if idx >= len(s.Call.Args) || s.Call.Ellipsis.IsValid() {
+			return nil, false
+		}
+		info := s.Unit.Pkg.TypesInfo
+		switch x := ast.Unparen(s.Call.Args[idx]).(type) {
+		case *ast.FuncLit:
+			nm := fmt.Sprintf("literal in %s", shortName(s.Unit.Obj))
+			out = append(out, funcValue{nm, isOrdering(info, x.Type, x.Body)})
+		case *ast.Ident:
+			switch o := info.Uses[x].(type) {
+			case *types.Func:
+				fd := c.declOf[originOf(o)]
+				if fd == nil {
+					return nil, false
+				}
+				if !seen[o.Name()] {
+					seen[o.Name()] = true
+					out = append(out, funcValue{o.Name(), isOrdering(c.pkgOf[fd].TypesInfo, fd.Type, fd.Body)})
+				}
+			case *types.Var:
+				vs, ok := c.funcParamValues(s.Unit, o, depth+1)
+				if !ok {
+					return nil, false
+				}
+				for _, v := range vs {
+					if !seen[v.name] {
+						seen[v.name] = true
+						out = append(out, v)
+					}
+				}
+			default:
+				return nil, false
+			}
+		default:
+			return nil, false
+		}
+	}
+	return out, true
 }
